@@ -337,6 +337,7 @@ func runReceiver(c *rcase, out *vh.LineWriter, st *vh.Stats) {
 		for _, n := range notifs[nBefore:] {
 			out.Printf("%s %d notif %s\n", c.id, i, n.text)
 		}
+		mon.now = hk.ChunkTick(recv)
 		if mon.step(i, o, chunk, res, before, after, trBefore, trAfter, notifs[nBefore:]) {
 			nontrivial = true
 		}
